@@ -62,7 +62,7 @@ class C19(Check):
     def gen(self, rng, tier, i):
         n_actions = rng.randint(1, 8)
         agent = {"kind": "eps", "eps": rng.choice([0.0, 0.0, 0.1, 0.5, 1.0, round(rng.random(), 3)]),
-                 "alpha": rng.choice([-1, -1, 0.1, 0.5, 1.0, round(rng.random(), 3)]), "init": rng.choice([0.0, 0.0, 1.0, -0.5]),
+                 "alpha": rng.choice([-1, -1, 0.1, 0.5, 1.0, round(rng.random(), 3)]), "init": rng.choice([0.0, 0.0, 1.0, -0.5, 0, 1, 2]),
                  "seed": rng.randrange(2 ** 31)}
         if rng.random() < 0.5:
             # exchange mode
